@@ -219,7 +219,7 @@ CLAIMS = {
                 "when over budget, no timeout/death, over heavy programs (all dice families with huge counts, exploding pools, "
                 "recursion, computed values loaded through nested functions, doubling strings/arrays) x budgets x modes; capacity "
                 "families at and around every cap must give the full value or an error (an error beyond the documented caps); "
-                "parse budgets give errors. Four defects found this way were repaired.",
+                "parse budgets give errors. Four defects found this way were repaired. call_depth_cap / calls_restored / funcInvoke_depth_cap / computedExecute_depth_cap (VM model): with 1000 calls in progress a further function or computed-value call is refused before anything of it runs, whatever the budget configuration, and every call — however it ends — leaves the count as it found it.",
         "note": TB + "Monotonicity of the counter across every instruction (hence 'at most budget+1 dispatches') is proved for the loop "
                      "guard and the dice families but not yet for all 70 opcodes with sub-VM calls; it is validated by the meter "
                      "oracle. Work per non-dice instruction is bounded by the capacities (512 elements, 1 MiB strings), not metered. "
